@@ -40,10 +40,12 @@ MANIFEST = dict(
          "with C19's byte-level readers). For ALL loaders, facts regenerated from the sources are decided: every test function stores its "
          "title only through libxmp_read_title / libxmp_copy_adjust / pw_read_title or sets it empty; the loaders that set it empty or "
          "conditionally are exactly the known findings; the title width a test function reads equals the width its loader stores "
-         "(C11_title_widths; UMX against the wrapped formats). Tied to the C on every run by differential correspondences (real string "
+         "(C11_title_widths; UMX against the wrapped formats); a test function that walks chunks steps exactly like its loader's IFF walk "
+         "(C11_chunk_steps). Tied to the C on every run by differential correspondences (real string "
          "helpers, real test_module/load_module on synthetic tables, real wrappers, the real core test functions on three back-ends and the "
-         "real table) and a direct oracle on the real loaders over the corpus with truncations, bit flips, title-field fills and planted "
-         "container signatures through all four entry-point pairs.",
+         "real table) and a direct oracle on the real loaders over the corpus with truncations, bit flips, title-field fills, junk / decoy chunks in front "
+         "of the title chunk of chunk-walking formats, and planted container signatures (13 built-in depackers and the two external-helper "
+         "signatures, exact hits and certified near misses) through all four entry-point pairs.",
     note="Trusted: Lean kernel, the hand-written models XmpModel/TestLoad.lean and TestLoadCore.lean, tools/gen_c11.py, harnesses and "
          "differ. Modelled-not-verified: the *_test/*_load pairs of the ~49 non-core formats and the 43 ProWizard detectors are parameters "
          "of the model (their mutual consistency and their title extraction are searched by the oracle; only their syntactic title "
@@ -66,7 +68,7 @@ REQUIRED = ["Xmp.TestLoad." + n for n in (
     "C11_core_table_head", "C11_core_calls", "C11_core_names", "C11_core_premise", "C11_agree_core", "C11_agree_core_four",
     "C11_core_verdict", "C11_core_reject", "C11_core_title_bytes", "C11_core_title",
     # regenerated facts about all test functions, FILE usability (XmpProps.C11Core)
-    "C11_tests_title_discipline", "C11_tests_title_deviants", "C11_title_widths", "C11_title_widths_coverage", "C11_file_usable",
+    "C11_tests_title_discipline", "C11_tests_title_deviants", "C11_title_widths", "C11_title_widths_coverage", "C11_chunk_steps", "C11_file_usable",
     # C19 readers (XmpProps.C11CoreRead)
     "C11_core_read_title", "C11_core_read_accepts")]
 
@@ -168,6 +170,7 @@ def compare_case(q, a, m, stats):
 
 
 PWNAMES = set()
+WALKERS = []             # format names whose test function walks chunks (translator)
 NOTES = []
 PWUNTITLED = set()
 PW_TITLE_INIT = False
@@ -449,6 +452,13 @@ SIG_PLANTS = [
     ("lzx", "miss", "h:0." + _hx(b"LzX")),
     ("s404", "hit", "h:0." + _hx(b"S404")), ("s404", "miss", "h:0." + _hx(b"S405")), ("s404", "miss", "h:0." + _hx(b"S4O4")),
     ("s404", "miss", "h:0." + _hx(b"T404")),
+    # the two external-helper signatures of libxmp_decrunch (`MO3`, `Rar` at offset 0): a helper is only ever run when a
+    # file NAME is known, so on a caller's FILE (a stream) these bytes are no container at all: "stream" = certified like a miss
+    ("rar", "stream", "h:0." + _hx(b"Rar")), ("rar", "stream", "h:0." + _hx(b"Rar!\x1a\x07\x00")),
+    ("rar", "stream", "h:0." + _hx(b"Rarefied air")),
+    ("rar", "miss", "h:0." + _hx(b"Rbr!")), ("rar", "miss", "h:0." + _hx(b"RaR!")), ("rar", "miss", "h:0." + _hx(b"rar!")),
+    ("mo3", "stream", "h:0." + _hx(b"MO3")), ("mo3", "stream", "h:0." + _hx(b"MO3\x05 module")),
+    ("mo3", "miss", "h:0." + _hx(b"MO2")), ("mo3", "miss", "h:0." + _hx(b"NO3")), ("mo3", "miss", "h:0." + _hx(b"mo3")),
 ]
 
 
@@ -475,7 +485,7 @@ def signature_cases(ck, scratch):
         # the synthetic module and the first real one get every plant; the others a seed-dependent sample
         plants = SIG_PLANTS if i < 2 or ck.tier != "quick" else ck.rng.sample(SIG_PLANTS, 12)
         for cont, kind, ops in plants:
-            out.append((("N;" if kind == "miss" else "") + ops, b, cont, kind))
+            out.append((("N;" if kind in ("miss", "stream") else "") + ops, b, cont, kind))
     return out
 
 
@@ -512,7 +522,8 @@ def run_oracle_shard(args):
     exe, seed, nmut, maxsize, scratch, bystander, files = args
     os.makedirs(scratch, exist_ok=True)
     rc, out, err = vlib.run_exe(exe, ["run", str(seed), str(nmut), str(maxsize), scratch, bystander] + files,
-                                timeout=3000, env={"MSAN_OPTIONS": "halt_on_error=1:exit_code=86"})
+                                timeout=3000, env={"MSAN_OPTIONS": "halt_on_error=1:exit_code=86",
+                                                   "C11_CHUNK_WALKERS": "|" + "|".join(WALKERS) + "|"})
     return rc, out.decode("latin-1"), err
 
 
@@ -586,6 +597,9 @@ def judge_files(ck, files, exe_name, stats, msan=False):
                     stats["container_variants"] += 1
                 if variant != "o":
                     stats["mutated_pairs"] += 1
+                for op in sorted({x[:1] for x in variant.split(";") if x[:1] in "tfzhwc"}):
+                    stats.setdefault("by_op", {})
+                    stats["by_op"][op] = stats["by_op"].get(op, 0) + 1
                 if trc == "0":
                     ft = hexb(r[5]).decode("latin-1")
                     stats["formats"][ft] = stats["formats"].get(ft, 0) + 1
@@ -712,10 +726,10 @@ def oracle(ck, scratch):
     sig_rc = {}
     for f in sfiles:
         for r in f["R"]:
-            k = "%s:%s test=%s,load=%s" % ("miss" if r[0].startswith("N;") else "hit", r[1], r[2], r[3])
+            k = "%s:%s test=%s,load=%s" % ("certified" if r[0].startswith("N;") else "hit", r[1], r[2], r[3])
             sig_rc[k] = sig_rc.get(k, 0) + 1
     ck.note("signature_plants", {"cases": len(sig), "containers": len({c for _, _, c, _ in sig}),
-                                 "misses": len([1 for _, _, _, k in sig if k == "miss"]), "rc": sig_rc})
+                                 "certified_non_containers": len([1 for _, _, _, k in sig if k != "hit"]), "rc": sig_rc})
     # large files first, round-robin over shards
     order = sorted(files, key=lambda f: -os.path.getsize(f))
     nsh = vlib.NCPU
@@ -745,13 +759,18 @@ def oracle(ck, scratch):
 
 
 def run(ck):
-    global PWNAMES, PWUNTITLED, PW_TITLE_INIT
+    global PWNAMES, PWUNTITLED, PW_TITLE_INIT, WALKERS
     g = ck.gen(gen_c11.generate)
+    WALKERS = list(g["walkers"])
     PWNAMES = {n.encode() for n in g["pwnames"]}
     PWUNTITLED = {n.encode() for n in g["pw_untitled"]}
     PW_TITLE_INIT = bool(g["pw_title_init"])
     ck.note("generated", {k: g[k] for k in ("changed", "n_loaders", "n_pw", "prepare_returns", "pw_title_init")})
     ck.proofs(["XmpProps.C11", "XmpProps.C11Core", "XmpProps.C11CoreRead"], required=REQUIRED, drivers=["drv_c11"])
+    if not ck.lean_ok:
+        # a broken theorem (already recorded as unproved) must not switch off the correspondences and the title oracle:
+        # the driver only needs the model
+        ck.lean_ok = vlib.lean_build(["drv_c11"])[0]
     exe = vlib.build_harness("c11_strings", ["c11_strings.c", "c11_table.c"])
     scratch = os.path.join(vlib.OUT, "c11-scratch-%d" % os.getpid())
     os.makedirs(scratch, exist_ok=True)
